@@ -58,7 +58,8 @@ type Subscription struct {
 	reaccessThrottle *rescache.Throttle
 
 	// Protected by conn
-	direct       int // Number of direct subscriptions
+	direct       int // Number of direct subscriptions, including those of requests not yet answered
+	confirmed    int // Number of direct subscriptions the client has been told about
 	indirect     int // Number of indirect subscriptions (sent or loading)
 	indirectsent int // Number of indirect subscriptions (sent)
 }
@@ -821,6 +822,7 @@ func (s *Subscription) validateAccess(a *rescache.Access) {
 // an unsubscribe event if any direct subscriptions existed.
 func (s *Subscription) unsubscribeDirect(reason *reserr.Error) {
 	if s.direct > 0 {
+		s.confirmed = 0
 		s.c.Unsubscribe(s, true, false, s.direct, true)
 		s.c.Send(rpc.NewEvent(s.rid, "unsubscribe", rpc.UnsubscribeEvent{Reason: reason}))
 	}
